@@ -26,6 +26,10 @@ DeclsOf(o) == SeqSet(o.decls)
 SupF(sq)   == [ k \in { sq[i].key : i \in DOMAIN sq } |-> (CHOOSE e \in SeqSet(sq) : e.key = k).lex ]
 FieldF(sq) == [ k \in { sq[i].key : i \in DOMAIN sq } |-> (CHOOSE e \in SeqSet(sq) : e.key = k) ]
 
+\* the order the generated new<Op>Params visits the declarations in
+RECURSIVE Filter(_, _)
+Filter(sq, loc) == IF sq = << >> THEN << >> ELSE (IF Head(sq).in = loc THEN << Head(sq) >> ELSE << >>) \o Filter(Tail(sq), loc)
+Generated(decls) == Filter(decls, "query") \o Filter(decls, "path") \o Filter(decls, "header")
 ParseOK(o, sup, ev) ==
     LET ds == DeclsOf(o)
         f  == Failing(ds, sup)
@@ -41,6 +45,11 @@ ParseOK(o, sup, ev) ==
                                      /\ (e.set => fl[Key(d)].toks = e.toks)
           ELSE /\ ~ev.ok
                /\ \E d \in f : Key(d) = ev.errKey
+               \* the step-level machine: which of several failing parameters is named (not part of the property:
+               \* a difference is reported as model drift, the case is accepted)
+               /\ IF ev.errKey = Run(Generated(o.decls), sup, 1).err THEN TRUE
+                  ELSE PrintT(ToJson([verdict |-> "DRIFT", case |-> ev.case, at |-> l, event |-> [ev |-> "Parse"],
+                                      why |-> [named |-> ev.errKey, machine |-> Run(Generated(o.decls), sup, 1).err]]))
 
 Parse == /\ Is("Parse")
          /\ \E o \in SeqSet(ops) : o.id = Ev.op
